@@ -138,6 +138,10 @@ def _chunk(job):
     signal.signal(signal.SIGALRM, lambda s, f: (_ for _ in ()).throw(_Alarm()))
     parser, errors, lexer = _parse_mod()
     fails, n = [], 0
+    # the outcome of a parse depends on the text alone: probe texts give the same outcome before and after everything else
+    # this worker parses (no state survives a parse, whatever it was fed in between)
+    PROBES = ["(1 + 2) * 3", "f((a, b), [c, (d)])", "def x = (((1)))", "((", "1 +"]
+    before = [_try(parser, errors, p_) for p_ in PROBES]
     for src in job:
         n += 1
         r = _try(parser, errors, src)
@@ -149,6 +153,10 @@ def _chunk(job):
             r2 = _try(parser, errors, src)
             if r2 != r:
                 fails.append((src, f"not deterministic: {r} then {r2}"))
+    after = [_try(parser, errors, p_) for p_ in PROBES]
+    for p_, b_, a_ in zip(PROBES, before, after):
+        if a_ != b_:
+            fails.append((p_, f"outcome depends on what was parsed before: first {b_}, after {n} other texts {a_}"))
     return n, fails
 
 
